@@ -107,6 +107,8 @@ func lenFactsOf(cond ssa.Value, truth bool) []pfact {
 			return []pfact{{kind: kLenMin, path: p, min: 1}} // len(x) != 0
 		case base == 0 && (op == token.EQL && truth || op == token.NEQ && !truth):
 			return []pfact{{kind: kLenMax0, path: p}} // len(x) == 0
+		case base == 1 && (op == token.LSS && truth || op == token.GEQ && !truth), base == 0 && (op == token.LEQ && truth || op == token.GTR && !truth):
+			return []pfact{{kind: kLenMax0, path: p}} // len(x) < 1, len(x) <= 0, !(len(x) >= 1), !(len(x) > 0)
 		case op == token.EQL && truth, op == token.NEQ && !truth:
 			return []pfact{{kind: kLenMin, path: p, min: base}, {kind: kLenEq, path: p, min: base}}
 		case op == token.LSS && !truth, op == token.GEQ && truth:
